@@ -25,6 +25,11 @@ TIME_TAGS = ('roEdStart', 'StoryStarted', 'StoryEnded')
 
 
 def ename(e):
+    """the name under which an exception is observed: its nearest class that is a built-in or one of mosromgr's own (so
+    dateutil's ParserError counts as the ValueError it is, xml's ParseError as the SyntaxError it is)"""
+    for k in type(e).__mro__:
+        if k.__module__ == 'builtins' or k.__module__.startswith('mosromgr'):
+            return k.__name__
     return type(e).__name__
 
 
@@ -173,13 +178,23 @@ def run_coll(texts, allow_incomplete, strict, how='strings', tmpdir=None, again=
                 elif how == 'files':
                     paths = []
                     written = {}
+                    names = ['0.mos.xml', 'msg[1].mos.xml', 'copy (2) a+b%41.mos.xml', 'q?*.mos.xml']
                     for i, t in enumerate(texts):
-                        # a document supplied twice is one file listed twice
                         if t not in written:
-                            written[t] = os.path.join(tmpdir, 'f%04d.mos.xml' % i)
+                            # files spread over four directories, the same base names in each; names with glob
+                            # metacharacters, beside a bystander ('msg1.mos.xml') that such a pattern would match
+                            d = os.path.join(tmpdir, 'part%d' % (i % 4))
+                            os.makedirs(d, exist_ok=True)
+                            name = names[(i // 4) % 4] if i < 16 else 'f%04d.mos.xml' % i
+                            written[t] = os.path.join(d, name)
                             with open(written[t], 'wb') as f:
                                 f.write(encode_doc(t))
-                        paths.append(written[t])
+                            with open(os.path.join(d, 'msg1.mos.xml'), 'wb') as f:
+                                f.write(b'<mos><mosID>BYSTANDER</mosID><ncsID>N</ncsID><messageID>424242</messageID><roReadyToAir><roID>BYSTANDER</roID><roAir>READY</roAir></roReadyToAir></mos>')
+                            paths.append(written[t])
+                        else:
+                            # a document supplied twice is one file listed twice - the second time spelled differently
+                            paths.append(os.path.join(os.path.dirname(written[t]), '.', os.path.basename(written[t])))
                     mc = moscollection.MosCollection.from_files(paths, allow_incomplete=allow_incomplete)
                 elif how == 's3':
                     mc = moscollection.MosCollection.from_s3(bucket_name='b', prefix='ro/', allow_incomplete=allow_incomplete)
